@@ -15,6 +15,7 @@ import (
 	"hash/fnv"
 	"io"
 	"log"
+	"net/http"
 	"sort"
 	"strings"
 	"sync"
@@ -441,8 +442,179 @@ func buildSweeps(thorough bool) []sweep {
 			}
 			return Case{Mode: "mw", Wire: true, MW: &MW{Op: ops[i[0]], Cred: mwCreds(mwTokens[i[2]])[i[1]], Ctx: i[3] == 1, CB: cbs[i[4]]}}, true
 		}})
+
+	// C: decoy carriers: the credential's NAME in places where the authenticator is not specified to look
+	type dcfg struct {
+		name   string
+		server Server
+		real   func(cl *Client, v string)              // writes the real credential; nil = none
+		decoy  func(place, v string) (Carrier, string) // the carrier for that place
+	}
+	b64basic := func(v string) string {
+		h := &http.Request{Header: http.Header{}}
+		h.SetBasicAuth(v, "pw:"+v)
+		return h.Header.Get("Authorization")
+	}
+	sameName := func(n string) func(place, v string) (Carrier, string) {
+		return func(place, v string) (Carrier, string) { return Carrier{In: place, Name: S(n), Value: S(v)}, "" }
+	}
+	var dcfgs []dcfg
+	basicDecoy := func(place, v string) (Carrier, string) {
+		return Carrier{In: place, Name: "Authorization", Value: S(b64basic(v))}, ""
+	}
+	dcfgs = append(dcfgs,
+		dcfg{"basic/none", Server{Kind: "basic", Realm: "-"}, nil, basicDecoy},
+		dcfg{"basic/present", Server{Kind: "basic", Realm: "-"}, func(cl *Client, v string) {
+			cl.OpAuth = []Cred{{Kind: "basic", User: S(v), Pass: S("pw:" + v)}}
+		}, basicDecoy})
+	bearerDecoy := func(place, v string) (Carrier, string) {
+		switch place {
+		case "header", "cookie": // the parameter's name where it is not a source
+			return Carrier{In: place, Name: "access_token", Value: S(v)}, ""
+		}
+		return Carrier{In: place, Name: "Authorization", Value: S("Bearer " + v)}, "" // the header's name where it is not a source
+	}
+	bsrv := Server{Kind: "bearer", Scheme: "o", Scopes: []string{"a"}}
+	dcfgs = append(dcfgs,
+		dcfg{"bearer/none", bsrv, nil, bearerDecoy},
+		dcfg{"bearer/header", bsrv, func(cl *Client, v string) { cl.OpAuth = []Cred{{Kind: "bearer", Token: S(v)}} }, bearerDecoy},
+		dcfg{"bearer/query", bsrv, func(cl *Client, v string) { cl.QueryToken = sp(v) }, bearerDecoy},
+		dcfg{"bearer/form", bsrv, func(cl *Client, v string) { cl.FormToken = sp(v) }, bearerDecoy})
+	for _, n := range []string{"X-Key", "api_key"} {
+		n := n
+		srv := Server{Kind: "apikey", Name: S(n), In: "header"}
+		dcfgs = append(dcfgs, dcfg{"key-header/" + n + "/none", srv, nil, sameName(n)},
+			dcfg{"key-header/" + n + "/present", srv, func(cl *Client, v string) {
+				cl.OpAuth = []Cred{{Kind: "apikey", Name: S(n), In: "header", Token: S(v)}}
+			}, sameName(n)})
+	}
+	for _, n := range []string{"api_key", "X-Key", "k"} {
+		n := n
+		srv := Server{Kind: "apikey", Name: S(n), In: "query"}
+		dcfgs = append(dcfgs, dcfg{"key-query/" + n + "/none", srv, nil, sameName(n)},
+			dcfg{"key-query/" + n + "/present", srv, func(cl *Client, v string) {
+				cl.OpAuth = []Cred{{Kind: "apikey", Name: S(n), In: "query", Token: S(v)}}
+			}, sameName(n)})
+	}
+	dplaces := []string{"header", "query", "form", "cookie"}
+	dvals := []string{"real-val"}
+	if thorough {
+		dvals = []string{"real-val", "a b", "é%2F+"}
+	}
+	sw = append(sw, sweep{name: "decoy-carriers",
+		doc:   "for every authenticator kind {basic; bearer with the token in none/header/query/form; api key in header (2 names) and in query (3 names), each with the real credential absent or written by the client's writer} x every subset of the places {header, query, form field, cookie} carrying the credential's NAME through the parameter writer (api key: the key's name; basic: Authorization = Basic ...; bearer: access_token as header/cookie, Authorization = Bearer ... as query/form) x decoy value {same as the real one, different, real+suffix} x form encoding {urlencoded, multipart} x method {POST, PUT, PATCH, DELETE, GET} x value sets x ctx x transport x callback {ok, err} x invocation; a carrier in the place the authenticator IS specified to read is a credential (expected to apply), with the real credential also present it is a same-slot conflict and outside the space",
+		sizes: []int{len(dcfgs), 16, 3, 2, len(methods), len(dvals), 2, 2, 2, 2},
+		gen: func(i []int) (Case, bool) {
+			d := dcfgs[i[0]]
+			mask := i[1]
+			if mask == 0 && i[2] > 0 {
+				return Case{}, false
+			}
+			v := dvals[i[5]]
+			dv := []string{v, "decoy-" + v, v + "x"}[i[2]]
+			cl := &Client{Method: methods[i[4]], Media: "json"}
+			if d.real != nil {
+				d.real(cl, v)
+			}
+			for b, pl := range dplaces {
+				if mask&(1<<b) != 0 {
+					c, _ := d.decoy(pl, dv)
+					cl.Extra = append(cl.Extra, c)
+				}
+			}
+			hasForm := cl.FormToken != nil || mask&4 != 0
+			if hasForm {
+				cl.Media = []string{"urlencoded", "multipart"}[i[3]]
+			} else if i[3] == 1 {
+				return Case{}, false
+			}
+			if abstract(cl).ambiguous != "" {
+				return Case{}, false
+			}
+			srv := d.server
+			srv.Ctx = i[6] == 1
+			srv.CB = []string{"ok", "err"}[i[8]]
+			srv.Param = "scoped"
+			if i[9] == 1 {
+				if srv.Kind == "bearer" {
+					return Case{}, false
+				}
+				srv.Param = "request"
+			}
+			return Case{Mode: "unit", Wire: i[7] == 0, Client: cl, Server: &srv}, true
+		}})
+
+	// Q: sequences on shared instances: one Runtime, one authenticator value per description
+	type elem struct {
+		cl  Client
+		srv Server
+	}
+	seqClients := func(def *Cred) []Client {
+		out := []Client{
+			{Method: "POST", Media: "json", Default: def},
+			{Method: "POST", Media: "json", Default: def, OpAuth: []Cred{{Kind: "bearer", Token: "tok-1"}}},
+			{Method: "POST", Media: "json", Default: def, OpAuth: []Cred{{Kind: "bearer", Token: "tok-2"}}},
+			{Method: "POST", Media: "json", Default: def, OpAuth: []Cred{{Kind: "basic", User: "u1", Pass: "p:1"}}},
+			{Method: "PUT", Media: "json", Default: def, OpAuth: []Cred{{Kind: "basic", User: "u2", Pass: ""}}},
+			{Method: "POST", Media: "json", Default: def, OpAuth: []Cred{{Kind: "apikey", Name: "X-Key", In: "header", Token: "key-1"}}},
+			{Method: "POST", Media: "json", Default: def, OpAuth: []Cred{{Kind: "apikey", Name: "api_key", In: "query", Token: "key-2"}}},
+			{Method: "POST", Media: "json", Default: def, OpAuth: []Cred{{Kind: "passthrough"}}},
+			{Method: "POST", Media: "json", Default: def, QueryToken: sp("qry-1")},
+			{Method: "POST", Media: "urlencoded", Default: def, FormToken: sp("frm-1"), FormOther: true},
+			{Method: "PATCH", Media: "multipart", Default: def, FormToken: sp("frm-2")},
+			{Method: "POST", Media: "json", Default: def, Preset: &Cred{Kind: "raw", Raw: "Token pre-1"}},
+			{Method: "POST", Media: "urlencoded", Default: def, OpAuth: []Cred{{Kind: "apikey", Name: "api_key", In: "query", Token: "key-3"}},
+				Extra: []Carrier{{In: "form", Name: "api_key", Value: "decoy-1"}, {In: "cookie", Name: "api_key", Value: "decoy-2"}}},
+		}
+		return out
+	}
+	seqServers := []Server{
+		{Kind: "basic", Param: "scoped", Realm: "-", CB: "ok"},
+		{Kind: "basic", Param: "scoped", Realm: "R", CB: "err"},
+		{Kind: "bearer", Param: "scoped", Scheme: "o", Scopes: []string{"a"}, CB: "ok"},
+		{Kind: "bearer", Param: "scoped", Scheme: "o", Scopes: []string{"a"}, CB: "nil"},
+		{Kind: "apikey", Param: "scoped", Name: "X-Key", In: "header", CB: "ok"},
+		{Kind: "apikey", Param: "request", Name: "api_key", In: "query", CB: "ok"},
+	}
+	seqDefaults := []*Cred{nil, {Kind: "bearer", Token: "def-tok"}, {Kind: "apikey", Name: "X-Key", In: "header", Token: "def-key"}}
+	var groups [][]elem
+	for _, def := range seqDefaults {
+		var g []elem
+		for _, c := range seqClients(def) {
+			for _, s := range seqServers {
+				g = append(g, elem{c, s})
+			}
+		}
+		groups = append(groups, g)
+	}
+	ne := len(groups[0])
+	mkSeq := func(g []elem, idx []int, ctx, wire bool) Case {
+		var head *Case
+		for k := len(idx) - 1; k >= 0; k-- {
+			e := g[idx[k]]
+			cl, srv := e.cl, e.srv
+			srv.Ctx = ctx
+			head = &Case{Mode: "unit", Wire: wire, Client: &cl, Server: &srv, Then: head}
+		}
+		return *head
+	}
+	sw = append(sw, sweep{name: "sequences-pairs",
+		doc:   fmt.Sprintf("every ordered pair of %d elements (13 client operations x 6 authenticator descriptions) per transport-wide default {none, bearer, key header}, both requests built on ONE client Runtime, judged by ONE authenticator value when the two descriptions are equal, x ctx x transport; each step is judged by the reference as on fresh instances (state surviving a request - header maps, default-credential wrapper, parsed forms, recorder of the callback - would show)", ne),
+		sizes: []int{len(groups), ne, ne, 2, 2},
+		gen: func(i []int) (Case, bool) {
+			return mkSeq(groups[i[0]], []int{i[1], i[2]}, i[3] == 1, i[4] == 0), true
+		}})
+	if thorough {
+		sw = append(sw, sweep{name: "sequences-triples",
+			doc:   "as sequences-pairs, every ordered triple, plain variants over the wire",
+			sizes: []int{len(groups), ne, ne, ne},
+			gen: func(i []int) (Case, bool) {
+				return mkSeq(groups[i[0]], []int{i[1], i[2], i[3]}, false, true), true
+			}})
+	}
+
 	// small, discriminating sweeps first: a run cut by its time budget has then covered every clause
-	rank := map[string]int{"cross-kind": 0, "middleware": 1, "default-credential": 2, "bearer-placements": 3, "apikey-cross": 4, "basic-config": 5, "bearer-token-values": 6}
+	rank := map[string]int{"cross-kind": 0, "middleware": 1, "default-credential": 2, "decoy-carriers": 3, "sequences-pairs": 4, "bearer-placements": 5, "apikey-cross": 6, "basic-config": 7, "bearer-token-values": 8, "sequences-triples": 9}
 	sort.SliceStable(sw, func(i, j int) bool {
 		ri, ok := rank[sw[i].name]
 		if !ok {
@@ -573,6 +745,6 @@ func main() {
 		"reference model (props/c14/model.go: abstract, expect) is the reading of the property text; header-safe = non-empty, field-value bytes, no leading/trailing whitespace",
 		"the wire is Request.Write + http.ReadRequest of the standard library (no socket, no server-side header validation)",
 		"combinations in which two writers set the same header or parameter are outside the space (the text does not say who wins)",
-		"MAY (never reported): empty key or token values; form placement with methods other than POST/PUT/PATCH; error value returned together with 'not applicable'; FailedBasicAuth after accepted credentials; OAuth2SchemeName when not applicable; what a Ctx callback's context carries")
-	r.Finish("every element of the stated sweeps (products of explicit axes, ambiguous and duplicated combinations removed by stated rules) is executed once on the real client writers, Runtime.CreateHttpRequest, Request.Write/http.ReadRequest and the real authenticator; one evaluation = one pipeline; non-trivial = the request carried at least one credential or placement and the authenticator under test was consulted (or the oracle failed); distinct = number of different 64-bit FNV hashes of the canonical JSON of the case, so a case reached by two sweeps is counted once", complete)
+		"MAY (never reported, recorded in the outcome labels): whether the request body is still readable after authentication (observed on the pinned tree: basic and api-key authenticators and bearer with a header or query token leave it intact, bearer reads a form body); empty key or token values; form placement with methods other than POST/PUT/PATCH; error value returned together with 'not applicable'; FailedBasicAuth after accepted credentials; OAuth2SchemeName when not applicable; what a Ctx callback's context carries")
+	r.Finish("every element of the stated sweeps (products of explicit axes, ambiguous and duplicated combinations removed by stated rules) is executed once on the real client writers, Runtime.CreateHttpRequest, Request.Write/http.ReadRequest and the real authenticator; one evaluation = one pipeline; the space includes decoy carriers (the credential's name in every place the authenticator is not specified to read, same and different values, methods with and without body) and ordered pairs (thorough: triples) of requests on one shared Runtime and authenticator value, each step judged as on fresh instances; non-trivial = the request carried at least one credential or placement and the authenticator under test was consulted (or the oracle failed); distinct = number of different 64-bit FNV hashes of the canonical JSON of the case, so a case reached by two sweeps is counted once", complete)
 }
